@@ -10,7 +10,11 @@ Verdict(i) ==
       m == \A p \in parts : PartMatched(p)
       perPart == UNION {JudgePart(p, m) : p \in parts}
       applied == {Applied(p) : p \in parts}
-  IN perPart \cup (IF Cardinality(applied) <= 1 THEN {} ELSE {"composite-not-atomic"})
+      \* a command that carries several INDEPENDENT cells (a batch of tokens, each with its own expectation): every part is
+      \* judged by its own match, and nothing ties them together
+      indep == "independent" \in DOMAIN e /\ e.independent
+  IN IF indep THEN UNION {JudgePart(p, PartMatched(p)) : p \in parts}
+     ELSE perPart \cup (IF Cardinality(applied) <= 1 THEN {} ELSE {"composite-not-atomic"})
 TInit == l = 1
 TNext == /\ l <= Len(Trace)
          /\ LET v == Verdict(l) IN IF v = {} THEN TRUE ELSE PrintT(<<"REJECT", l, v>>)
